@@ -1327,6 +1327,15 @@ pub fn combo_transforms() -> Vec<(&'static str, fn(&mut PProblem))> {
             }
         }),
         // last: the first shift of type a as it is now gets a twin later in the day
+        // the second vehicle drives on its own routing profile: slower and along other distances than the first
+        ("profile", |p| {
+            p.vehicles[1].profile = "truck".into();
+            let mut truck = p.matrices[0].clone();
+            truck.profile = "truck".into();
+            truck.durations = truck.durations.iter().map(|d| d * 2).collect();
+            truck.distances = truck.distances.iter().map(|d| if *d == 0 { 0 } else { d + 5 }).collect();
+            p.matrices.push(truck);
+        }),
         // vicinity clustering over the whole plan (d1/d4 and d2/p0 share a location, every neighbour is within the threshold)
         ("cluster", |p| {
             p.clustering = Some(json!({
